@@ -56,7 +56,7 @@ func (c C) coverage(key string, fn *ssa.Function, st *types.Struct, root string,
 func C08(p *ir.Program, r *report.R) {
 	c := C{p, r}
 	r.Floor = 60
-	r.Explain = "Decided: sign-field coverage per transaction kind, with the field list taken from the struct type (txdata, tokenData, ContractUpgradeMainInfo, MultiSignMainInfo, UTXOTransaction) so that a new field that is not signed is reported; the chain parameter is appended by both the signing and the verifying hash and the protected path of STDEIP155Signer.Sender is dominated by sign-param equality; recoverPlain reaches Ecrecover only after the V range and ValidateSignatureValues checks, with homestead rules from every reachable caller; the transaction hash (cache key, mempool identity) covers the signature for every kind and the cached sender is used only for an equal signer; the confidential spend authorisation message is the prefix hash that covers inputs, outputs, token, keys, fee, extra and the account signature, and the ring signatures are checked against the expanded signature built from it. ADDED after seeded-change testing: ValidateSignatureValues is interpreted exhaustively over the orderings of r and s against 1, N/2 and N, the homestead flag and v (1458 rows) against the specification, and secp256k1halfN is N/2; UTXOTransaction.CheckBasic returns nil only after checkTxInputKeys (ring signatures) whenever the transaction has a confidential input. NOT decided: soundness of secp256k1/ed25519/RingCT (cgo), one-time address ownership (cryptographic, no structural clause)."
+	r.Explain = "Decided: sign-field coverage per transaction kind, with the field list taken from the struct type (txdata, tokenData, ContractUpgradeMainInfo, MultiSignMainInfo, UTXOTransaction) so that a new field that is not signed is reported; the chain parameter is appended by both the signing and the verifying hash and the protected path of STDEIP155Signer.Sender is dominated by sign-param equality; recoverPlain reaches Ecrecover only after the V range and ValidateSignatureValues checks, with homestead rules from every reachable caller; the transaction hash (cache key, mempool identity) covers the signature for every kind and the cached sender is used only for an equal signer; the confidential spend authorisation message is the prefix hash that covers inputs, outputs, token, keys, fee, extra and the account signature, and the ring signatures are checked against the expanded signature built from it. ADDED after seeded-change testing: ValidateSignatureValues is interpreted exhaustively over the orderings of r and s against 1, N/2 and N, the homestead flag and v (1458 rows) against the specification, and secp256k1halfN is N/2; UTXOTransaction.CheckBasic returns nil only after checkTxInputKeys (ring signatures) whenever the transaction has a confidential input. every re-signing site that copies a payload resets the copy's sender cache; in verifyTxsOnProcess the error of every From/CheckTx call is assigned to the variable reported through the goroutine's result slot. NOT decided: soundness of secp256k1/ed25519/RingCT (cgo), one-time address ownership (cryptographic, no structural clause)."
 	r.Trusted = []string{"crypto.Ecrecover / ValidateSignatureValues (secp256k1)", "xcrypto RingCT (cgo)", "rlpHash = Keccak(ser encoding) (C11)"}
 
 	sigEx := func(m map[string]string) map[string]string {
@@ -389,6 +389,115 @@ func C08(p *ir.Program, r *report.R) {
 		}
 	}
 	_ = sort.Strings
+
+	// ---- a replaced signature does not inherit the cached sender -----------------------------------------
+	// The sender cache (fromValue) lives inside the payload structs (txdata, signdata). Any function
+	// that writes signature values R/S/V into a payload COPIED from an existing transaction must also
+	// reset that copy's cache, or From() keeps answering with the previous signer.
+	{
+		nSites := 0
+		for _, typ := range []string{"txdata", "signdata"} {
+			rf := p.Field("types", typ+".R")
+			fvF := p.Field("types", typ+".fromValue")
+			byFn := map[*ssa.Function][]ir.Store{}
+			for _, st := range p.Stores(rf) {
+				if strings.HasSuffix(p.Pos(st.Fn.Pos()), "_test.go") {
+					continue
+				}
+				byFn[st.Fn] = append(byFn[st.Fn], st)
+			}
+			for fn, sts := range byFn {
+				for _, st := range sts {
+					root := ir.RootOf(st.Base)
+					al, ok := root.(*ssa.Alloc)
+					if !ok {
+						continue // writes through a pointer held elsewhere (decoders fill fresh objects: no cache yet)
+					}
+					// is the allocation initialised from an existing payload (struct copy)?
+					copied := false
+					ir.Instrs(fn, func(in ssa.Instruction) {
+						s2, ok := in.(*ssa.Store)
+						if !ok || ir.RootOf(s2.Addr) != ssa.Value(al) {
+							return
+						}
+						if _, isStruct := s2.Val.Type().Underlying().(*types.Struct); isStruct {
+							if u, isLoad := s2.Val.(*ssa.UnOp); isLoad && u.Op.String() == "*" {
+								copied = true
+							}
+						}
+					})
+					if !copied {
+						continue
+					}
+					nSites++
+					reset := false
+					for _, s3 := range p.Stores(fvF) {
+						if s3.Fn == fn && ir.RootOf(s3.Base) == ssa.Value(al) {
+							reset = true
+						}
+					}
+					r.Check("K4", "sender-cache/reset-on-new-signature/"+ir.FuncName(fn), p.InstrPos(st.Instr), reset,
+						"signature values are written into a payload copied from an existing transaction; the copy's sender cache is reset in the same function")
+				}
+			}
+		}
+		r.Check("K4", "sender-cache/reset-on-new-signature/sites", "-", nSites >= 3, fmt.Sprintf("%d re-signing sites on copied payloads found (confirmed by hand: Transaction.Sign, Transaction.WithSignature, TokenTransaction.Sign)", nSites))
+	}
+
+	// ---- the block pre-check reports every verification failure ------------------------------------
+	// In verifyTxsOnProcess each sender recovery (From) and each basic check (CheckTx) assigns the ONE
+	// error variable whose address goes into the goroutine's result slot; an error assigned to any
+	// other variable (a shadowing `err :=`) is silently dropped and the transaction is executed.
+	{
+		v := p.Func("app", "LinkApplication.verifyTxsOnProcess")
+		var slotErr *ssa.Alloc
+		ir.InstrsDeep(v, func(_ *ssa.Function, in ssa.Instruction) {
+			if st, ok := in.(*ssa.Store); ok {
+				if al, ok := st.Val.(*ssa.Alloc); ok && strings.HasPrefix(ir.Render(st.Addr), "&errRets[") && al.Comment == "err" {
+					slotErr = al
+				}
+			}
+		})
+		if slotErr == nil {
+			r.Undecided("K8", "precheck/error-slot", p.Pos(v.Pos()), "the error variable stored into errRets[...] was not found")
+		} else {
+			n := 0
+			ir.InstrsDeep(v, func(_ *ssa.Function, in ssa.Instruction) {
+				call, ok := in.(*ssa.Call)
+				if !ok {
+					return
+				}
+				cn := ir.CalleeName(call)
+				if !(cn == "app.LinkApplication.CheckTx" || strings.HasSuffix(cn, ".From")) {
+					return
+				}
+				n++
+				// the error result: the call itself (single result) or Extract #last
+				okStore := false
+				check := func(val ssa.Value) {
+					if val.Referrers() == nil {
+						return
+					}
+					for _, ref := range *val.Referrers() {
+						if st, ok := ref.(*ssa.Store); ok && st.Val == val && st.Addr == ssa.Value(slotErr) {
+							okStore = true
+						}
+					}
+				}
+				if tup, isTuple := call.Type().(*types.Tuple); isTuple {
+					for _, ref := range *call.Referrers() {
+						if ex, ok := ref.(*ssa.Extract); ok && ex.Index == tup.Len()-1 {
+							check(ex)
+						}
+					}
+				} else {
+					check(call)
+				}
+				r.Check("K8", "precheck/error-reaches-result-slot/"+cn, p.InstrPos(in), okStore, "the error of "+cn+" is assigned to the variable reported through errRets")
+			})
+			c.MustFind("K8", "precheck/error-reaches-result-slot", v, n, "From/CheckTx calls")
+		}
+	}
 
 	// ---- confidential spend authorisation is checked whenever there is a confidential input ----
 	{
